@@ -25,14 +25,14 @@ SHORT = [0, 1, 2, 5, 10, 15, 16]
 PLAIN = ["on", "off", "h255", "h256", "plain-main", "plain-test3"]
 ACT = ["%s-%s" % (k, x) for k in ("at", "next", "prev") for x in DEPS]
 SHORTS = ["short-%d" % p for p in SHORT]
-RT = ["%s-%s-%d" % (r, n, k) for r in ("rt1", "rt2") for n in NETS for k in range(1, 10)]
+RT = ["%s-%s-%d" % (r, n, k) for r in ("rt1", "rt2") for n in NETS for k in range(1, 10)] + ["rt3-%s-%d" % (n, k) for n in NETS for k in (1, 2, 3)]
 PR = ["%s-%s" % (r, n) for r in ("pr1", "pr2", "pr3") for n in NETS]
 ALL = PLAIN + ACT + SHORTS + RT + PR
 
 # which descriptor fields a rule reads (for failure signatures)
 RULE_FIELDS = {"pow": ["pow", "bits"], "bits": ["bits", "time"], "time-old": ["time"], "time-new": ["time"], "version": ["ver"],
                "length": ["cb"], "cb-missing": ["cb"], "cb-multiple": ["cb"], "cb-length": ["cblen"], "cb-height": ["b34", "cblen"],
-               "nonfinal": ["lock", "seqfin", "ltx", "time"], "merkle": ["merkle"], "mutated": ["merkle"],
+               "nonfinal": ["lock", "seqfin", "ltx", "time"], "merkle": ["merkle"], "mutated": ["merkle", "ntx"],
                "wit-commit": ["commit", "witdata"], "wit-nonce": ["commit", "witdata"], "wit-unexpected": ["commit", "witdata"],
                "weight": ["weight"]}
 
